@@ -41,8 +41,9 @@ type knownFinding struct {
 }
 
 type lockFile struct {
-	Note       string              `json:"note"`
-	Properties map[string][]string `json:"properties"`
+	Note       string               `json:"note"`
+	Properties map[string][]string  `json:"properties"`
+	Bindings   map[string]fnBinding `json:"bindings,omitempty"`
 }
 
 func readLock(path string) *lockFile {
@@ -328,6 +329,12 @@ func cmdCheck(args []string) {
 	}
 	t0 := time.Now()
 	loadOpenFindings(*verif)
+	if !*updateLock {
+		if lk := readLock(filepath.Join(*verif, "obligations.lock")); lk != nil && lk.Bindings != nil {
+			lockedBindings = lk.Bindings
+			useBindings = true
+		}
+	}
 	w, err := loadWorld(*repo, filepath.Join(*verif, "stubs"))
 	if err != nil {
 		// the tree does not load (or a contract no longer binds): every
@@ -439,6 +446,14 @@ func reportOne(w *World, propID string, res *checkResult, verifD, outD, tierS st
 		}
 		sort.Strings(names)
 		lock.Properties[*prop] = names
+		if lock.Bindings == nil {
+			lock.Bindings = map[string]fnBinding{}
+		}
+		for _, x := range res.execs {
+			if x.contract != nil && x.entry != nil && x.entry.Syntax() != nil {
+				lock.Bindings[x.entryKey] = x.currentBinding()
+			}
+		}
 		lock.Note = "claimed obligations per property; regenerated with `digvc check --update-lock` on the unchanged tree, see DESIGN.md section 6.1"
 		b, _ := json.MarshalIndent(lock, "", " ")
 		os.WriteFile(filepath.Join(*verif, "obligations.lock"), append(b, '\n'), 0o644)
